@@ -6,7 +6,7 @@
    predicates are evaluated on the observed history alone. *)
 From Coq Require Import List ZArith Bool Lia.
 Import ListNotations.
-From Goat Require Import Base.Bytes Base.Explore Model.WireFormat Model.Transports.
+From Goat Require Import Base.Bytes Base.Explore Model.WireFormat Model.Transports Model.HttpLink.
 Open Scope Z_scope.
 
 (* ---------- equality on envelopes ---------- *)
@@ -299,6 +299,29 @@ Definition e2e_route (e : rpc) : route :=
   | Some h => match h_source h with [] => RtEmptySource | _ => RtAddr 0 end
   end.
 
+(* The end-to-end rig's exchange, replayed on the LINK model (Model/HttpLink.v) with the model's own rules: for every
+   envelope Write (the POST reaches the peer: LWrite), a Read of the far connection (LPeer (HRead 0)), the hand-off
+   (h_handoff lifted by l_peer), the answer seen by Write (l_answer). What the model then says the Writes returned and
+   the far end read is compared with what the two real GoatOverHttp instances did (reason 1). *)
+Fixpoint link_exchange (k : link rpc bytes) (es : list rpc) : link rpc bytes :=
+  match es with
+  | [] => k
+  | e :: t =>
+      let w := length (lk_ws k) in
+      let q := length (hs_reqs (lk_peer k)) in
+      let k1 := lk_ext encode decode e2e_route k (LWrite e) in
+      let r := length (hs_rds (lk_peer k1)) in
+      let k2 := lk_ext encode decode e2e_route k1 (LPeer (HRead 0%nat false)) in
+      match l_peer (h_handoff q r) k2 with
+      | Some k3 => match l_answer w k3 with Some k4 => link_exchange k4 t | None => link_exchange k3 t end
+      | None => link_exchange k2 t
+      end
+  end.
+Definition link_oks (k : link rpc bytes) : list bool :=
+  map (fun x => match sw_res x with Some true => true | _ => false end) (lk_ws k).
+Definition link_reads (k : link rpc bytes) : list (option rpc) :=
+  flat_map (fun ev => match ev with HEvRead _ (HROk e) => [Some e] | _ => [] end) (hs_log (lk_peer k)).
+
 Record hobs := mkHObs {
   ho_resps : list (Z * Z);           (* (request, status code) answered in this step *)
   ho_announced : list (Z * Z);       (* (address, connection) announced in this step *)
@@ -531,6 +554,8 @@ Definition check (c : c19case) : list nat :=
       (if nodup && inorder then [] else [1%nat]) ++ (if nodup && inorder && acked then [] else [2%nat])
   | CHttpE2E written oks read =>
       (if list_eqb (opt_eqb rpc_eqb) (map (fun e => decode (encode e)) written) read then [] else [1%nat]) ++
+      (let k := link_exchange (lk_init 60 90 0) written in
+       if list_eqb Bool.eqb (link_oks k) oks && list_eqb (opt_eqb rpc_eqb) (link_reads k) read then [] else [1%nat]) ++
       (if forallb (fun b => b) oks && list_eqb (opt_eqb rpc_eqb) read (map Some written) then [] else [2%nat])
   end.
 
